@@ -378,6 +378,11 @@ func (t *Tree) RemoveLeafCountKey(height int64) {
 	}
 
 	batch := t.ndb.db.NewBatch(true)
+	if t.root.height == 0 {
+		// a one-leaf tree: the leaf is the root and is stored without the height prefix,
+		// so the prefix scan above cannot find it
+		batch.Delete(genLeafCountKey(t.root.key, t.root.hash, height, len(t.root.hash)))
+	}
 	for _, k := range keys {
 		_, hash, exits := t.GetHash(k)
 		if exits {
